@@ -308,6 +308,9 @@ Definition dotted (ip : bytes) : bytes :=
 Definition enc_v1_tcp4 (src dst : bytes) (sp dp : Z) : bytes :=
   SIGV1 ++ [32] ++ T_TCP4 ++ [32] ++ dotted src ++ [32] ++ dotted dst ++ [32] ++ dec_of_Z sp ++ [32] ++ dec_of_Z dp ++ [13; 10].
 Definition enc_v1_unknown (junk : bytes) : bytes := SIGV1 ++ [32] ++ T_UNKNOWN ++ junk ++ [13; 10].
+(* "PROXY TCP6 a b sp dp\r\n" where a, b are the IPv6 texts of the addresses (text form left to the sender) *)
+Definition enc_v1_tcp6 (ta tb : bytes) (sp dp : Z) : bytes :=
+  SIGV1 ++ [32] ++ T_TCP6 ++ [32] ++ ta ++ [32] ++ tb ++ [32] ++ dec_of_Z sp ++ [32] ++ dec_of_Z dp ++ [13; 10].
 
 (* Classification of a whole stream by the specification *)
 Inductive sclass :=
